@@ -271,6 +271,22 @@ theorem sources_pair {d e : Doc} {sd se : Shape} (hd : inferDoc d = .ok sd) (he 
 theorem sources_idem {d : Doc} {s : Shape} (h : inferDoc d = .ok s) : fromSourcesDoc [d, d] = .ok s := by
   rw [sources_pair h h, merger_idem s (infer_wf h)]
 
+theorem inferDocList_rep {d : Doc} {s : Shape} (h : inferDoc d = .ok s) :
+    ∀ k, inferDocList (List.replicate k d) = .ok (List.replicate k s)
+  | 0 => rfl
+  | k + 1 => by simp [List.replicate_succ, inferDocList, h, inferDocList_rep h k]
+
+theorem foldl_merger_rep (s : Shape) (hw : s.wf = true) : ∀ k, (List.replicate k s).foldl merger s = s
+  | 0 => rfl
+  | k + 1 => by simp [List.replicate_succ, List.foldl_cons, merger_idem s hw, foldl_merger_rep s hw k]
+
+/-- idempotence for any number of copies: `from_sources([d; k+1]) == from_str(d)` -/
+theorem sources_idem_k {d : Doc} {s : Shape} (h : inferDoc d = .ok s) (k : Nat) :
+    fromSourcesDoc (List.replicate (k + 1) d) = .ok s := by
+  unfold fromSourcesDoc
+  rw [inferDocList_rep h (k + 1)]
+  simp [List.replicate_succ, merge, foldl_merger_rep s (infer_wf h) k]
+
 /-- `from_sources([d, null]) == from_sources([null, d]) == optional(from_str(d))` -/
 theorem sources_null {d : Doc} {s : Shape} (h : inferDoc d = .ok s) :
     fromSourcesDoc [d, .null] = .ok s.asOptional ∧ fromSourcesDoc [.null, d] = .ok s.asOptional := by
